@@ -71,10 +71,25 @@ func Core(zctx *zed.Context) []Value {
 		Value{"builder:enum-quoted-symbol", zed.NewValue(zctx.LookupTypeEnum([]string{"x y", "z"}), zed.EncodeUint(0))},
 		Value{"builder:ip4-mapped-ip6", zed.NewValue(zed.TypeIP, zed.EncodeIP(netip.MustParseAddr("::ffff:1.2.3.4")))},
 		Value{"builder:net-mapped", zed.NewValue(zed.TypeNet, zed.EncodeNet(netip.MustParsePrefix("::ffff:10.0.0.0/104")))},
+		unionOfRecordWithNamedField(zctx),
 		Value{"builder:missing", zctx.Missing()},
 		Value{"builder:quiet", zctx.Quiet()},
 	)
 	return out
+}
+
+// unionOfRecordWithNamedField builds {p:80(port=uint16)} as a member of the
+// union (int64,{p:port}): the union decorator refers to a type name that is
+// defined inside the value.
+func unionOfRecordWithNamedField(zctx *zed.Context) Value {
+	port, _ := zctx.LookupTypeNamed("port", zed.TypeUint16)
+	rec := zctx.MustLookupTypeRecord([]zed.Field{{Name: "p", Type: port}})
+	u := zctx.LookupTypeUnion([]zed.Type{zed.TypeInt64, rec})
+	var inner, b zcode.Builder
+	inner.Append(zed.EncodeUint(80))
+	b.Append(zed.EncodeInt(int64(u.TagOf(rec))))
+	b.Append(inner.Bytes())
+	return Value{"builder:union-of-record-with-named-field", zed.NewValue(u, b.Bytes()).Copy()}
 }
 
 // Small is a 14-value sub-universe for products (pairs, triples).
